@@ -1297,23 +1297,47 @@ func (we *wireEnv) Cleanup() { _ = os.RemoveAll(we.Dir) }
 
 // runTool runs a binary in dir with the pinned toolchain environment.
 func runTool(dir string, extraEnv []string, bin string, args ...string) (int, string) {
-	cmd := exec.Command(bin, args...)
-	cmd.Dir = dir
-	cmd.Env = pipe.GoEnv(append([]string{"GOMAXPROCS=2"}, extraEnv...)...)
-	var buf bytes.Buffer
-	cmd.Stdout = &buf
-	cmd.Stderr = &buf
-	err := cmd.Run()
-	code := 0
-	if err != nil {
-		if ee, ok := err.(*exec.ExitError); ok {
-			code = ee.ExitCode()
-		} else {
-			code = -1
-			buf.WriteString(err.Error())
+	code, out := 0, ""
+	for attempt := 0; attempt < 3; attempt++ {
+		cmd := exec.Command(bin, args...)
+		cmd.Dir = dir
+		cmd.Env = pipe.GoEnv(append([]string{"GOMAXPROCS=2"}, extraEnv...)...)
+		var buf bytes.Buffer
+		cmd.Stdout = &buf
+		cmd.Stderr = &buf
+		err := cmd.Run()
+		code = 0
+		if err != nil {
+			if ee, ok := err.(*exec.ExitError); ok {
+				code = ee.ExitCode()
+			} else {
+				code = -1
+				buf.WriteString(err.Error())
+			}
+		}
+		out = buf.String()
+		// a tool whose `go list -export` child lost the shared bulk cache to a concurrent reset did not
+		// judge the input at all: run it again
+		if code == 0 || !(strings.Contains(out, pipe.BulkCache) && strings.Contains(out, "no such file or directory")) {
+			break
 		}
 	}
-	return code, buf.String()
+	return code, out
+}
+
+// bulkBuild runs `go <args>` in dir like pipe.RunGo, and repeats it when the output shows that the
+// shared bulk build cache was reset underneath it by a concurrent check (pipe.MaintainBulkCache
+// removes the directory): such a failure says nothing about the packages being compiled.
+func bulkBuild(dir string, args ...string) ([]byte, error) {
+	var out []byte
+	var err error
+	for attempt := 0; attempt < 3; attempt++ {
+		out, err = pipe.RunGo(dir, args...)
+		if err == nil || !(strings.Contains(string(out), pipe.BulkCache) && strings.Contains(string(out), "no such file or directory")) {
+			break
+		}
+	}
+	return out, err
 }
 
 // RunWire runs `wire gen .` in dir.
